@@ -54,6 +54,12 @@ Check C15_oracle_sound : forall c,
   (Corr.C15.prop_b c = true \/ Corr.C15.known_b c = 1%N) /\
   (Corr.C15.judge c = 0%N \/ Corr.C15.judge c = 101%N).
 
+Check C15_received_time_irrelevant : forall h h',
+  same_modulo_received h h' -> srun h = srun h'.
+Check eq_refl : same_modulo_received = fun h h' => Forall2 (fun a b => unstamp a = unstamp b) h h'.
+Check eq_refl : unstamp = fun e => match e with SMarket i _ m => EMarket i m | SFill f => EFill f end.
+Check eq_refl : srun = fun h => erun (map unstamp h).
+
 (* the definitions the statements rest on *)
 Check eq_refl : tracks = fun h =>
   match is_pos (irun h), g_ref (grun h) with
@@ -105,10 +111,12 @@ Local Open Scope Q_scope.
 Definition flat := mkOI None None 0 None None None.
 Definition pos (fee pnl_u : Q) (upd : Z) :=
   Some (mkOP 0 Buy 100 2 2 pnl_u (- fee) fee 0 1000 upd (1%N :: nil)).
-Definition evs (fee : Q) := [ OFill (mkOF 1 0 1000 Buy 100 2 fee); OMarket 0 (OMTrade 2000 (Some 110)) ]%list.
+Definition evs (fee : Q) := [ OFill (mkOF 1 0 1000 Buy 100 2 fee); OMarket 0 9000 (OMTrade 2000 (Some 110)) ]%list.
 Definition st (fee pnl_u : Q) (priced : bool) :=
   mkOI (pos fee pnl_u 1000) (if priced then Some 110 else None) 0 None None
        (if priced then Some (2000%Z, 110) else None).
+(* the correspondence side erases the receive time exactly like [unstamp] *)
+Check eq_refl : eevent_of (OMarket 3 777 (OMTrade 20 (Some 104))) = unstamp (SMarket 3 777 (mevent_of (OMTrade 20 (Some 104)))).
 (* buy 2 @ 100 without fee, then a public trade at 110: the estimate is 2*110 - 2*100 = 20 *)
 Check eq_refl : judge (CEngine (spots 2) (evs 0) [ (st 0 0 false, None); (st 0 20 true, None) ]%list
                                [ st 0 20 true; flat ]%list true) = 0%N.
@@ -140,14 +148,14 @@ Import Corr.C15.
 Local Close Scope Qc_scope.
 Local Open Scope Q_scope.
 Definition evs := [ OFill (mkOF 1 0 10 Buy 100 2 1);
-    OMarket 0 (OMTrade 20 (Some 104));
-    OMarket 0 (OML1 30 30 (Some (105, 1)) (Some (107, 3)));
-    OMarket 0 (OMTrade 15 (Some 90));
+    OMarket 0 5000 (OMTrade 20 (Some 104));
+    OMarket 0 30 (OML1 30 30 (Some (105, 1)) (Some (107, 3)));
+    OMarket 0 1 (OMTrade 15 (Some 90));
     OFill (mkOF 2 0 40 Buy 106 1 1);
-    OMarket 1 (OMTrade 45 (Some 55));
-    OMarket 0 (OMOther 50);
+    OMarket 1 45 (OMTrade 45 (Some 55));
+    OMarket 0 40 (OMOther 50);
     OFill (mkOF 3 0 60 Sell 108 5 2);
-    OMarket 0 (OMOther 70) ]%list.
+    OMarket 0 99 (OMOther 70) ]%list.
 Check eq_refl : oracle_accepts_model (CEngine (spots 2) evs [] [] true) = true.
 Check eq_refl : verdicts (model_case (CEngine (spots 2) evs [] [] true)) = [1; 0; 0; 0; 0; 0; 0; 1; 0]%N.
 End PinSelf.
